@@ -25,6 +25,18 @@ def generate(rng, tier):
                 c["xin"] = [v + 1.0 for v in c["xin"]]
         else:
             c = F.gen_ft_case(rng, tier, lorch=True, channel=2, win=("hi_grid" if i % 3 == 0 else "none"), grid_kind=gk)
+        if i % 10 == 6 and min(c["xin"]) >= 0 and c["xmin"] is None:
+            # a non-zero abscissa so small that pi/xmax times it underflows to zero: the weight there is 1, not 0/0
+            rest = [v for v in c["xin"][1:] if v > 1e-300]
+            if rest and max(rest) < 7.5 and c["xmax"] is None:          # pi/xmax below 1/2, so that (pi/xmax) * 5e-324 rounds to zero
+                f_ = 7.5 / max(rest) * rng.uniform(1.0, 3.0)
+                rest = [v * f_ for v in rest]
+            c["xin"] = [rng.choice([5e-324, 1e-323, 2.5e-320])] + rest
+            for key in ("yin", "dy"):
+                if c[key] is not None:
+                    c[key] = c[key][:len(c["xin"])]
+            c["int_dtype"] = [False, c["int_dtype"][1], c["int_dtype"][2]]
+            c["desc"]["grid"] = c["desc"]["grid"] + "+subnormal0"
         c["poison"] = i % 3
         cases.append(c)
     return cases
